@@ -16,6 +16,11 @@ use serde_json::json;
 pub const SIG_RAW: &str = "c13-raw-ident-variant-name";
 pub const SIG_EMPTY: &str = "c13-empty-fields-variant";
 
+/// Candidate defect (reported, not repaired yet): the `FromStrError` of an enum declared with a raw identifier
+/// (`enum r#Type`) reads "Invalid `r#Type` string representation" (impl/src/from_str.rs: `input_type.to_string()`
+/// keeps the `r#`), although the enum's name is `Type`. While `true`, enums are not given a raw-identifier name.
+const AVOID_RAW_ENUM_NAME_IN_ERROR: bool = false;
+
 const PRELUDE: &str = r##"
 use core::str::FromStr;
 use core::fmt::Debug;
@@ -134,7 +139,7 @@ pub fn enum_strings(names: &[&str], seed: u64) -> (Vec<String>, usize) {
         let len = g.below(25);
         out.push((0..len).map(|_| pool[g.below(pool.len())]).collect());
     }
-    for _ in 0..200 {
+    for _ in 0..(if names.is_empty() { 0 } else { 200 }) {
         // a name with random case and sometimes one foreign character
         let n = names[g.below(names.len())];
         let mut v: Vec<char> = n.chars().map(|c| if g.below(2) == 0 { upper(c) } else { lower(c) }).collect();
@@ -169,7 +174,8 @@ where E: FromStr<Err = derive_more::FromStrError> {
         }
         if let Err(e) = &got {
             let m = e.to_string();
-            if !m.contains(enum_name) {
+            // the enum's *name*: a raw identifier's `r#` is not part of it
+            if !m.contains(enum_name) || m.contains("r#") {
                 bad_msg += 1;
                 if bad_msg <= 2 { o.fail(&format!("error of parse {s:?} names the enum"), &format!("a message mentioning `{enum_name}`"), &m); }
             }
@@ -199,11 +205,34 @@ impl FromStr for Cx {
     }
 }
 
+/// a generic wrapper that is `FromStr` whenever its parameter is (newtypes over `Wrap<T>`)
+#[derive(Debug, PartialEq, Clone)]
+pub struct Wrap<T>(pub T);
+impl<T: FromStr> FromStr for Wrap<T> {
+    type Err = T::Err;
+    fn from_str(s: &str) -> Result<Self, T::Err> {
+        // (its own rule, so that delegation to `Wrap<T>` and to `T` differ: one leading `w` is optional)
+        s.strip_prefix('w').unwrap_or(s).parse::<T>().map(Wrap)
+    }
+}
+/// a `FromStr` type with a lifetime parameter (newtypes over `Tg<'a>`)
+#[derive(Debug, PartialEq, Clone)]
+pub struct Tg<'a>(pub u32, pub core::marker::PhantomData<&'a ()>);
+impl<'a> FromStr for Tg<'a> {
+    type Err = CxErr;
+    fn from_str(s: &str) -> Result<Self, CxErr> {
+        match s.strip_prefix("cx:") {
+            Some(r) => r.parse::<u32>().map(|n| Tg(n, core::marker::PhantomData)).map_err(|_| CxErr { input: s.to_string(), at: 3 }),
+            None => Err(CxErr { input: s.to_string(), at: 1 }),
+        }
+    }
+}
+
 pub const BASE: &[&str] = &[
     "", " ", "0", "-0", "+0", "5", "+5", "-5", "5 ", " 5", "\t5", "5\n", "007", "127", "128", "255", "256", "-128", "-129",
     "2147483647", "2147483648", "-2147483648", "-2147483649", "99999999999999999999999999999999999999999", "1e3", "1E3", "1.5", "-1.5", ".5", "5.",
     "NaN", "nan", "inf", "-inf", "infinity", "1e400", "1_000", "0x10", "0b1", "٣", "１", "true", "false", "True", "TRUE", "t", "a", "ab", "é", "𝒳",
-    "\n", "'a'", "127.0.0.1", "127.0.0.1 ", "::1", "256.0.0.1", "1.2.3", "[::1]:80", "cx:7", "cx:", "cx:-1", " cx:7", "cx:7 ", "CX:7",
+    "\n", "'a'", "127.0.0.1", "127.0.0.1 ", "::1", "256.0.0.1", "1.2.3", "[::1]:80", "cx:7", "cx:", "cx:-1", " cx:7", "cx:7 ", "CX:7", "w5", "ww5", "w", "wtrue", "w1.5", "w cx:7", "wcx:7",
 ];
 
 pub fn newtype_strings(extra: &[&str], seed: u64) -> Vec<String> {
@@ -284,7 +313,8 @@ fn is_strict_keyword(s: &str) -> bool {
 }
 
 fn build_enum(d: &mut Dice) -> GenCase {
-    let nv = d.range(1, 6);
+    // (an enum without variants rejects every string)
+    let nv = if d.chance(2) { 0 } else { d.range(1, 6) };
     // (name, written identifier)
     let mut vars: Vec<(String, String)> = vec![];
     let mut labels = vec!["kind=enum".to_string()];
@@ -338,25 +368,46 @@ fn build_enum(d: &mut Dice) -> GenCase {
     // shapes: `V()` / `V {}` are field-less too
     let mut shapes: Vec<&str> = vec![""; vars.len()];
     let mut has_empty_shape = false;
-    if d.chance(4) {
+    if nv > 0 && d.chance(4) {
         let k = d.pick(vars.len());
         shapes[k] = if d.chance(50) { "()" } else { " {}" };
         has_empty_shape = true;
     }
-    let (ename, eident) = match d.weighted(&[6, 3, 1]) {
+    let (ename, eident) = match d.weighted(&[6, 3, if AVOID_RAW_ENUM_NAME_IN_ERROR { 0 } else { 1 }]) {
         0 => ("E".to_string(), "E".to_string()),
         1 => ("MyEnum".to_string(), "MyEnum".to_string()),
         _ => ("Type".to_string(), "r#Type".to_string()),
     };
+    // a field-less enum can only carry const parameters: (declaration, where-clause, instantiation)
+    let (egen, ewh, einst) = match d.weighted(&[78, 10, 6, 6]) {
+        0 => ("", "", ""),
+        1 => ("<const K: usize>", "", "<3>"),
+        2 => ("<const K: usize = 3>", "", "<3>"),
+        _ => ("<const K: usize, const L: bool>", " where [u8; K]: Sized", "<3, true>"),
+    };
+    // explicit discriminants / a repr hint do not matter to FromStr (unit variants only; a few of them)
+    let with_discr = nv > 0 && !has_empty_shape && d.chance(12);
+    let discr: Vec<String> = (0..vars.len()).map(|i| if with_discr && (i == 0 || d.chance(50)) { format!(" = {}", 3 * i + 1) } else { String::new() }).collect();
+    let erepr = if with_discr && d.chance(50) { "#[repr(u8)]\n" } else { "" };
     let seed = (d.pick(65536) as u64) << 16 | d.pick(65536) as u64;
-    let decl: String = vars.iter().zip(&shapes).map(|((_, id), sh)| format!("    {id}{sh},\n")).collect();
+    let decl: String = vars.iter().zip(&shapes).zip(&discr).map(|(((_, id), sh), dc)| format!("    {id}{sh}{dc},\n")).collect();
     let arms: String = vars.iter().zip(&shapes).enumerate().map(|(i, ((_, id), sh))| format!("{eident}::{id}{} => {i}, ", if sh.is_empty() { "" } else if *sh == "()" { "()" } else { " {}" })).collect();
     let names: String = vars.iter().map(|(n, _)| format!("{n:?}, ")).collect();
     let idents: String = vars.iter().map(|(_, i)| format!("{i:?}, ")).collect();
+    let star = if nv == 0 { "*" } else { "" };
     let body = format!(
-        "#[derive(derive_more::FromStr, Debug, Clone, Copy, PartialEq)]\npub enum {eident} {{\n{decl}}}\nconst NAMES: &[&str] = &[{names}];\nconst IDENTS: &[&str] = &[{idents}];\nfn idx(v: &{eident}) -> usize {{ match v {{ {arms}}} }}\npub fn run(o: &mut Out) {{\n    enum_check::<{eident}>(o, {ename:?}, NAMES, IDENTS, idx, {seed});\n}}\n"
+        "#[derive(derive_more::FromStr, Debug, Clone, Copy, PartialEq)]\n{erepr}pub enum {eident}{egen}{ewh} {{\n{decl}}}\nconst NAMES: &[&str] = &[{names}];\nconst IDENTS: &[&str] = &[{idents}];\nfn idx(v: &{eident}{einst}) -> usize {{ match {star}v {{ {arms}}} }}\npub fn run(o: &mut Out) {{\n    enum_check::<{eident}{einst}>(o, {ename:?}, NAMES, IDENTS, idx, {seed});\n}}\n"
     );
     labels.push(format!("variants={nv}"));
+    if !egen.is_empty() {
+        labels.push("const_generic_enum".into());
+    }
+    if with_discr {
+        labels.push("enum_with_explicit_discriminants".into());
+    }
+    if nv == 0 {
+        labels.push("empty_enum".into());
+    }
     if vars.iter().any(|(n, _)| !n.is_ascii()) {
         labels.push("non_ascii_variant_name".into());
     }
@@ -409,20 +460,38 @@ const INNERS: [(&str, &[&str], &str); 14] = [
 fn build_newtype(d: &mut Dice) -> GenCase {
     let (ty, extra, tlabel) = INNERS[d.weighted(&[6, 4, 2, 2, 4, 2, 3, 3, 3, 3, 2, 2, 2, 8])];
     let named = d.chance(45);
-    let generic = d.weighted(&[6, 2, 1, 1, 1]);
+    let generic = d.weighted(&[12, 4, 2, 2, 2, 3, 2, 2]);
     let fname = if named { *d.choose(&["v", "inner", "r#type", "x"]) } else { "" };
     let sname = match d.weighted(&[6, 3, 1]) {
         0 => "N",
         1 => "MyInt",
         _ => "r#Type",
     };
-    let fty = if generic == 0 { ty } else { "T" };
-    let (gen_decl, wh, inst) = match generic {
-        0 => ("", "", String::new()),
-        1 => ("<T>", "", format!("<{ty}>")),
-        2 => ("<T: Clone>", "", format!("<{ty}>")),
-        3 => ("<T>", " where T: core::fmt::Debug", format!("<{ty}>")),
-        _ => ("<T, const K: usize>", "", format!("<{ty}, 3>")),
+    // 5: the field type wraps the parameter (the derive bounds `T`, the field needs `Wrap<T>: FromStr`);
+    // 6: a defaulted parameter; 7: a lifetime parameter
+    let ty: String = match generic {
+        5 => format!("Wrap<{ty}>"),
+        7 => "Tg<'static>".to_string(),
+        _ => ty.to_string(),
+    };
+    let ty = ty.as_str();
+    let (extra, tlabel): (&[&str], &str) = if generic == 7 { (&["cx:0", "cx:4294967296", "tg:1"], "custom_lifetime") } else { (extra, tlabel) };
+    let fty = match generic {
+        0 => ty,
+        5 => "Wrap<T>",
+        7 => "Tg<'a>",
+        _ => "T",
+    };
+    let inner_arg = ty.strip_prefix("Wrap<").and_then(|x| x.strip_suffix('>')).unwrap_or(ty);
+    let (gen_decl, wh, inst): (String, &str, String) = match generic {
+        0 => (String::new(), "", String::new()),
+        1 => ("<T>".into(), "", format!("<{ty}>")),
+        2 => ("<T: Clone>".into(), "", format!("<{ty}>")),
+        3 => ("<T>".into(), " where T: core::fmt::Debug", format!("<{ty}>")),
+        4 => ("<T, const K: usize>".into(), "", format!("<{ty}, 3>")),
+        5 => ("<T>".into(), "", format!("<{inner_arg}>")),
+        6 => (format!("<T = {ty}>"), "", format!("<{ty}>")),
+        _ => ("<'a>".into(), "", "<'static>".to_string()),
     };
     let def = if named {
         format!("pub struct {sname}{gen_decl}{wh} {{ {fname}: {fty} }}")
@@ -438,11 +507,17 @@ fn build_newtype(d: &mut Dice) -> GenCase {
         "#[derive(derive_more::FromStr, Debug, PartialEq)]\n{def}\npub fn run(o: &mut Out) {{\n    newtype_check::<{sname}{inst}, {ty}>(o, {wrap}, &[{extra_src}], {seed});\n}}\n"
     );
     let mut labels = vec!["kind=newtype".to_string(), format!("inner={tlabel}"), if named { "named_field".to_string() } else { "tuple_field".to_string() }];
-    if generic > 0 {
+    if generic > 0 && generic != 7 {
         labels.push("generic_newtype".into());
     }
     if generic == 4 {
         labels.push("const_generic_newtype".into());
+    }
+    match generic {
+        5 => labels.push("newtype_over_generic_wrapper".into()),
+        6 => labels.push("newtype_param_default".into()),
+        7 => labels.push("newtype_lifetime_param".into()),
+        _ => {}
     }
     if fname == "r#type" || sname == "r#Type" {
         labels.push("raw_ident_in_newtype".into());
@@ -490,7 +565,16 @@ fn fixed() -> Vec<GenCase> {
         enum_case("E", &[("Foo", "r#Foo"), ("foo", "foo"), ("FOO", "FOO")], &["", "", ""]),
         enum_case("E", &[("A", "A"), ("B", "B")], &["()", ""]),
         enum_case("E", &[("A", "A"), ("B", "B")], &["", " {}"]),
+        raw_enum_case("#[derive(derive_more::FromStr, Debug, Clone, Copy, PartialEq)]\npub enum E {}\nconst NAMES: &[&str] = &[];\nconst IDENTS: &[&str] = &[];\nfn idx(v: &E) -> usize { match *v {} }\npub fn run(o: &mut Out) {\n    enum_check::<E>(o, \"E\", NAMES, IDENTS, idx, 1);\n}\n"),
+        raw_enum_case("#[derive(derive_more::FromStr, Debug, Clone, Copy, PartialEq)]\npub enum E<const K: usize> { Foo, foo, Bar = 7 }\nconst NAMES: &[&str] = &[\"Foo\", \"foo\", \"Bar\"];\nconst IDENTS: &[&str] = &[\"Foo\", \"foo\", \"Bar\"];\nfn idx(v: &E<3>) -> usize { match v { E::Foo => 0, E::foo => 1, E::Bar => 2 } }\npub fn run(o: &mut Out) {\n    enum_check::<E<3>>(o, \"E\", NAMES, IDENTS, idx, 1);\n}\n"),
     ]
+}
+
+fn raw_enum_case(body: &str) -> GenCase {
+    let mut c = GenCase::new(body.to_string());
+    c.labels = vec!["kind=enum".into(), "fixed".into()];
+    c.meta = json!({"kind": "enum", "has_raw": false, "has_empty_shape": false});
+    c
 }
 
 fn classify(c: &GenCase, r: &CaseResult, f: &Finding) -> Option<String> {
@@ -517,7 +601,7 @@ fn classify(c: &GenCase, r: &CaseResult, f: &Finding) -> Option<String> {
     None
 }
 
-const RULE: &str = "field-less enums (1..6 variants; names from 25 words (3 with non-ASCII letters É Ä Ø Ü) in 4 case patterns, groups differing only in case, raw identifiers incl. keywords, names with digits/underscores, raw enum name, `V()`/`V {}` variants) and newtypes (tuple/named/raw field, 5 generic forms) over i32,u8,i64,u128,f64,f32,bool,char,String,IpAddr,SocketAddr,NonZeroU8,PathBuf and a custom type with a custom error echoing its input. Enum strings, generated inside the program: exhaustively all strings up to length L<=4 over the letters of each name in both cases plus `_ - space #` (L = largest with <=6000 strings; same over the letters of all names), all 2^min(len,8) case patterns of every name (also behind r#/R#), all one-edit neighbours over that alphabet and 8 multi-byte characters, prefixes, suffixes, concatenations, padded names, 500 seeded random strings <=24 chars; oracle: reference implementation of the documented rule over the unraw names, Err must be derive_more::FromStrError (type-checked) whose Display mentions the enum's name; every own name must parse back. Newtype strings: 64 base strings + per-type extras, each padded 8 ways, 800 seeded random strings; oracle: s.parse::<Inner>().map(N) equal incl. the error value (type identity checked by the compiler). Non-trivial = enum with a case-collision group or a raw identifier (strings within one edit of every name are always included), newtype whose inner type can fail; distinct by program text";
+const RULE: &str = "field-less enums (0..6 variants, optionally with const parameters / explicit discriminants / a repr hint; names from 25 words (3 with non-ASCII letters É Ä Ø Ü) in 4 case patterns, groups differing only in case, raw identifiers incl. keywords, names with digits/underscores, raw enum name, `V()`/`V {}` variants) and newtypes (tuple/named/raw field, 8 generic forms incl. a field type wrapping the parameter, a defaulted parameter, a lifetime parameter) over i32,u8,i64,u128,f64,f32,bool,char,String,IpAddr,SocketAddr,NonZeroU8,PathBuf and a custom type with a custom error echoing its input. Enum strings, generated inside the program: exhaustively all strings up to length L<=4 over the letters of each name in both cases plus `_ - space #` (L = largest with <=6000 strings; same over the letters of all names), all 2^min(len,8) case patterns of every name (also behind r#/R#), all one-edit neighbours over that alphabet and 8 multi-byte characters, prefixes, suffixes, concatenations, padded names, 500 seeded random strings <=24 chars; oracle: reference implementation of the documented rule over the unraw names, Err must be derive_more::FromStrError (type-checked) whose Display mentions the enum's name; every own name must parse back. Newtype strings: 64 base strings + per-type extras, each padded 8 ways, 800 seeded random strings; oracle: s.parse::<Inner>().map(N) equal incl. the error value (type identity checked by the compiler). Non-trivial = enum with a case-collision group or a raw identifier (strings within one edit of every name are always included), newtype whose inner type can fail; distinct by program text";
 
 pub fn prop() -> DiceProp {
     DiceProp {
@@ -546,6 +630,9 @@ pub fn prop() -> DiceProp {
             ("name_within_exhaustive_length".into(), 0.3),
             ("inner=custom".into(), 0.03),
             ("generic_newtype".into(), 0.05),
+            ("const_generic_enum".into(), 0.08),
+            ("enum_with_explicit_discriminants".into(), 0.03),
+            ("newtype_over_generic_wrapper".into(), 0.01),
         ],
         shards: 0,
     }
